@@ -1,20 +1,28 @@
-(** C04 — only cacheable responses are stored, and never served past their lifetime. Statements only. *)
-From KV Require Import Bytes RustInt Range CacheControl Cache CacheProofs Cache04Proofs.
+(** C04 — only cacheable responses are stored, and never served past their lifetime. Statements only.
+    The model is Model/CacheX.v ([serveX]/[runX]: kvarn::handle_cache with streams, symbolic body sizes, the host's
+    status filter, override URIs, the repaired handle_vary_missing / clear_page); [fix_* = true] is the code in the
+    repo worktree, the [_refuted] theorems are witnesses on the model of the code before each repair. *)
+From KV Require Import Bytes RustInt Range CacheControl Cache CacheProofs Cache04Proofs Fixture CacheX CacheXProofs
+     CacheControlProofs CacheXWitness.
 Open Scope N_scope.
 
-(** the status filter is the property's list: 1xx, 304 and 4xx other than 404/410 are never stored *)
+(** ---------------- admission ---------------- *)
+(** the default status filter is the property's list: 1xx, 304 and 4xx other than 404/410 are never stored *)
 Theorem status_filter_exact : forall s,
   status_filter_drop s = true <-> (100 <= s <= 199) \/ s = 304 \/ (400 <= s <= 499 /\ s <> 404 /\ s <> 410).
 Proof. exact status_filter_spec. Qed.
 
-(** admission (on a host with a response cache; streams are outside the model): a computed response is
-    stored iff the handler declared server caching, the method is GET/HEAD, the status passes the filter,
-    the body is smaller than 4 MiB and it does not carry kvarn-cache-control: none *)
-Theorem admission_exact : forall m f,
-  may_store true m f = true <->
-  f_spref f <> SP_NONE /\ get_or_head m = true /\ status_filter_drop (f_status f) = false /\
-  N.of_nat (length (f_body f)) < size_limit /\ kvarn_none f = false.
-Proof. exact may_store_iff. Qed.
+(** a computed response is stored iff it does not stream its body, the handler declared server caching, the status
+    passes the host's filter, the method is GET/HEAD, the body is smaller than 4 MiB and it does not carry
+    kvarn-cache-control: none *)
+Theorem admission_exact : forall sfilter m x,
+  may_store_x true sfilter m x = true <->
+  is_stream x = false /\ f_spref (fx_fat x) <> SP_NONE /\ sfilter (f_status (fx_fat x)) = false /\
+  get_or_head m = true /\ fx_len x < size_limit /\ kvarn_none (fx_fat x) = false.
+Proof. exact may_store_x_iff. Qed.
+
+Theorem stream_never_stored : forall cache_on sfilter m x, is_stream x = true -> may_store_x cache_on sfilter m x = false.
+Proof. exact stream_not_stored. Qed.
 
 Theorem kvarn_cache_control_none_refused : forall f v,
   assoc (B "kvarn-cache-control") (f_headers f) = Some v -> to_str_ok v = true -> trim v = B "none" ->
@@ -23,81 +31,193 @@ Proof. exact kvarn_none_refused. Qed.
 
 Section C04.
   Variable hstate : Type.
-  Variable compute : hstate -> request -> bool -> fat * hstate * list bytes.
+  Variable compute : hstate -> request -> option (bytes * option bytes) -> bool -> fatx * hstate * list bytes.
   Variable ims_on : bool.
+  Variable fix_ovkey fix_clear fix_svary : bool.
+  Variable sfilter : N -> bool.
   Variable parse_ims : bytes -> option Z.
   Variable sanitize_ok : request -> bool.
   Variable prime : request -> request.
-  Variable negotiate : request -> fat -> option (N * bytes).
-  Variable vary_tuple : request -> tuple.
-  Variable vary_header : request -> fat -> list (bytes * bytes).
-  Notation serveC := (serve hstate compute true ims_on parse_ims sanitize_ok prime negotiate vary_tuple vary_header).
-  Notation missC := (miss hstate compute true ims_on negotiate vary_tuple vary_header).
+  Variable override : request -> option (bytes * option bytes).
+  Variable negotiate : request -> fatx -> option (N * bytes).
+  Variable vary_tuple : request -> option (bytes * option bytes) -> tuple.
+  Variable vary_header : request -> option (bytes * option bytes) -> fatx -> list (bytes * bytes).
+  Variable clear_alias : request -> option request.
+  Notation missR := (missX hstate compute true ims_on fix_ovkey fix_svary sfilter negotiate vary_tuple vary_header).
+  Notation serveR := (serveX hstate compute true ims_on true fix_ovkey fix_svary true true sfilter parse_ims sanitize_ok prime override
+                             negotiate vary_tuple vary_header).
+  Notation runR_state := (runX_state hstate compute true ims_on true fix_ovkey fix_clear fix_svary true true sfilter parse_ims sanitize_ok
+                                     prime override negotiate vary_tuple vary_header clear_alias).
 
   (** the miss arm stores exactly when admission says so, and nothing else changes in the cache *)
-  Theorem miss_stores_iff_admitted : forall c1 hs now r ok,
-    let f := fst (fst (compute hs r ok)) in
-    fst (fst (fst (missC c1 hs now r ok))) =
-      if may_store true (rq_method r) f
-      then c_insert (insert_key r f) {| e_vars := [(vary_tuple r, f)]; e_created := now; e_life := lifetime_ms f |} c1
+  Theorem miss_stores_iff_admitted : forall c1 hs now r ov ok,
+    let x := fst (fst (compute hs r ov ok)) in
+    fst (fst (fst (missR c1 hs now r ov ok))) =
+      if may_store_x true sfilter (rq_method r) x
+      then xc_insert (insert_key (if fix_ovkey then lookup_req r ov else r) (fx_fat x))
+                     {| ex_vars := [mkVar (vary_tuple r ov) x now]; ex_created := now; ex_life := lifetime_x x |} c1
       else c1.
-  Proof. exact (miss_store hstate compute ims_on negotiate vary_tuple vary_header). Qed.
+  Proof. exact (miss_store_x hstate compute ims_on fix_ovkey fix_svary sfilter negotiate vary_tuple vary_header). Qed.
 
-  (** whatever is looked up and found at time [now] is within its lifetime *)
-  Theorem never_stale : forall r c now k e c',
-    lookup r c now = ((k, Some e), c') ->
-    match e_life e with Some l => now - e_created e <= l | None => True end.
-  Proof. intros. apply fresh_spec. eapply lookup_fresh. eassumption. Qed.
+  (** for EVERY history (requests, page clears, clear-all, waits) from the empty cache: every variant the cache holds —
+      stored by the miss arm or pushed by handle_vary_missing — passed the admission test *)
+  Theorem stored_variants_admitted : forall ops hs now k e v,
+    xc_find k (fst (fst (runR_state ([], hs) now ops))) = Some e -> In v (ex_vars e) ->
+    is_stream (v_resp v) = false /\ f_spref (fx_fat (v_resp v)) <> SP_NONE /\ sfilter (f_status (fx_fat (v_resp v))) = false /\
+    fx_len (v_resp v) < size_limit /\ kvarn_none (fx_fat (v_resp v)) = false.
+  Proof.
+    intros ops hs now. exact (stored_admitted_history hstate compute ims_on fix_ovkey fix_clear fix_svary sfilter parse_ims
+      sanitize_ok prime override negotiate vary_tuple vary_header clear_alias ops [] hs now (AdmInv_nil sfilter)).
+  Qed.
 
-  (** adding a variant to an entry does not extend the entry's absolute expiry time *)
-  Theorem variant_push_keeps_expiry : forall e now l,
-    e_life e = Some l -> e_created e <= now -> fresh e now = true ->
-    now + (l - (now - e_created e)) = e_created e + l.
-  Proof. exact push_keeps_expiry. Qed.
+  (** whatever is looked up and found at time [now] is within the entry's lifetime *)
+  Theorem never_stale : forall lr c now k e c',
+    xlookup lr c now = ((k, Some e), c') ->
+    match ex_life e with Some l => now - ex_created e <= l | None => True end.
+  Proof. exact never_stale_x. Qed.
 
-  (** after an explicit clear of a page (or of the host) the page is not found, hence recomputed *)
-  Theorem cleared_is_miss : forall r r' c now,
-    path_query r = path_query r' -> snd (fst (lookup r (clear_page r' c) now)) = None.
-  Proof. exact Cache04Proofs.cleared_is_miss. Qed.
-  Theorem cleared_all_is_miss : forall r now, snd (fst (lookup r [] now)) = None.
-  Proof. exact clear_all_is_miss. Qed.
+  (** for EVERY history from the empty cache: a variant that a lookup finds (the only way a stored response is
+      served) was stored at most its OWN lifetime (max-age=N / kvarn-cache-control: N<unit>) ago — also when it is
+      one of several variants of a page whose other variants live longer *)
+  Theorem never_served_past_own_lifetime : forall ops hs now lr k e c1 tu v L,
+    let st := runR_state ([], hs) now ops in
+    xlookup lr (fst (fst st)) (snd st) = ((k, Some e), c1) -> xv_find tu (ex_vars e) = Some v ->
+    lifetime_x (v_resp v) = Some L -> v_stored v <= snd st /\ snd st - v_stored v <= L.
+  Proof.
+    intros ops hs now lr k e c1 tu v L. exact (served_within_own_lifetime_history hstate compute ims_on fix_ovkey fix_clear
+      fix_svary sfilter parse_ims sanitize_ok prime override negotiate vary_tuple vary_header clear_alias ops [] hs now lr k e
+      c1 tu v L (LifeInv_nil now)).
+  Qed.
+
+  (** after an explicit clear of a page — the URI as given or, after the repair, what the default redirect makes of
+      it ("/" is stored under "/index.html") — or of the host, the page is not found, hence recomputed *)
+  Theorem cleared_is_miss : forall lr r' c now,
+    (path_query lr = path_query r' \/
+     exists a, fix_clear = true /\ clear_alias r' = Some a /\ path_query lr = path_query a) ->
+    snd (fst (xlookup lr (xclear_page fix_clear clear_alias r' c) now)) = None.
+  Proof. exact (cleared_page_is_miss fix_clear clear_alias). Qed.
+  Theorem cleared_page_is_recomputed : forall c hs now r0 r',
+    override r0 = None ->
+    (path_query (prime r0) = path_query r' \/
+     exists a, fix_clear = true /\ clear_alias r' = Some a /\ path_query (prime r0) = path_query a) ->
+    snd (serveR (xclear_page fix_clear clear_alias r' c, hs) now r0) = snd (compute hs (prime r0) None (sanitize_ok r0)).
+  Proof.
+    exact (clear_then_request_recomputes hstate compute ims_on fix_ovkey fix_clear fix_svary sfilter parse_ims sanitize_ok prime
+             override negotiate vary_tuple vary_header clear_alias).
+  Qed.
+  Theorem cleared_all_is_miss : forall lr now, snd (fst (xlookup lr [] now)) = None.
+  Proof. exact clear_all_is_miss_x. Qed.
+
   Theorem not_found_is_recomputed : forall c hs now r0,
-    snd (fst (lookup (prime r0) c now)) = None ->
-    snd (serveC (c, hs) now r0) = snd (compute hs (prime r0) (sanitize_ok r0)).
-  Proof. exact (not_found_recomputes hstate compute ims_on parse_ims sanitize_ok prime negotiate vary_tuple vary_header). Qed.
+    snd (fst (xlookup (lookup_req (prime r0) (override r0)) c now)) = None ->
+    snd (serveR (c, hs) now r0) = snd (compute hs (prime r0) (override r0) (sanitize_ok r0)) /\
+    snd (fst (fst (serveR (c, hs) now r0))) = snd (fst (compute hs (prime r0) (override r0) (sanitize_ok r0))).
+  Proof.
+    exact (not_found_recomputes_x hstate compute ims_on fix_ovkey fix_svary sfilter parse_ims sanitize_ok prime override
+             negotiate vary_tuple vary_header).
+  Qed.
   Theorem unsafe_or_non_get_is_recomputed : forall c hs now r0,
     sanitize_ok r0 && get_or_head (rq_method (prime r0)) = false ->
-    snd (serveC (c, hs) now r0) = snd (compute hs (prime r0) (sanitize_ok r0)).
-  Proof. exact (guard_recomputes hstate compute ims_on parse_ims sanitize_ok prime negotiate vary_tuple vary_header). Qed.
+    snd (serveR (c, hs) now r0) = snd (compute hs (prime r0) (override r0) (sanitize_ok r0)) /\
+    snd (fst (fst (serveR (c, hs) now r0))) = snd (fst (compute hs (prime r0) (override r0) (sanitize_ok r0))).
+  Proof.
+    exact (guard_recomputes_x hstate compute ims_on fix_ovkey fix_svary sfilter parse_ims sanitize_ok prime override
+             negotiate vary_tuple vary_header).
+  Qed.
 
-  (** one computation per key while fresh: a response that was stored is served from the cache (no
-      invocation of the layer below, handler state untouched) by the next equal request within its lifetime *)
-  Theorem computed_once_while_fresh : forall c hs now now' r0 f,
-    let r := prime r0 in
-    fst (fst (compute hs r (sanitize_ok r0))) = f ->
-    snd (fst (lookup r c now)) = None ->
-    may_store true (rq_method r) f = true ->
-    sanitize_ok r0 = true ->
-    (ims_on = false \/ header (B "if-modified-since") r = None) ->
-    (c_find (key_pq r) (snd (lookup r c now)) = None \/ insert_key r f = key_pq r) ->
-    now <= now' -> match lifetime_ms f with Some l => now' - now <= l | None => True end ->
-    let st1 := fst (fst (serveC (c, hs) now r0)) in
-    snd (serveC st1 now' r0) = [] /\ snd (fst (fst (serveC st1 now' r0))) = snd st1 /\
-    rp_from_cache (snd (fst (serveC st1 now' r0))) = true /\
-    rp_body (snd (fst (serveC st1 now' r0))) = rp_body (finish negotiate vary_header r f true true).
-  Proof. exact (store_then_hit hstate compute ims_on parse_ims sanitize_ok prime negotiate vary_tuple vary_header). Qed.
-
-  (** 304 is sent exactly when a usable entry is found and the client's date passes the test *)
+  (** 304 is sent by the cache exactly when a usable entry is found, it holds the variant the request selects and the
+      client's date passes the test; otherwise the request is answered from that variant or by computing it *)
   Theorem not_modified_rule : forall c hs now r0 k e c1,
     let r := prime r0 in
-    lookup r c now = ((k, Some e), c1) -> sanitize_ok r0 = true -> get_or_head (rq_method r) = true ->
-    (rp_status (snd (fst (serveC (c, hs) now r0))) = 304 /\ rp_from_cache (snd (fst (serveC (c, hs) now r0))) = true /\
-     snd (serveC (c, hs) now r0) = [] /\ rp_body (snd (fst (serveC (c, hs) now r0))) = [])
+    xlookup (lookup_req r (override r0)) c now = ((k, Some e), c1) -> sanitize_ok r0 = true -> get_or_head (rq_method r) = true ->
+    (ims_hit ims_on parse_ims r e = true /\ xv_find (vary_tuple r (override r0)) (ex_vars e) <> None /\
+     rx_status (snd (fst (serveR (c, hs) now r0))) = 304 /\ rx_from_cache (snd (fst (serveR (c, hs) now r0))) = true /\
+     snd (serveR (c, hs) now r0) = [] /\ rx_body (snd (fst (serveR (c, hs) now r0))) = [] /\ fst (fst (serveR (c, hs) now r0)) = (c1, hs))
     \/
-    (match (if ims_on then match header (B "if-modified-since") r with Some v => parse_ims v | None => None end else None) with
-     | Some t => ims_fresh t (e_created e) | None => false end = false).
-  Proof. exact (ims_rule hstate compute ims_on parse_ims sanitize_ok prime negotiate vary_tuple vary_header). Qed.
+    ((ims_hit ims_on parse_ims r e = false \/ xv_find (vary_tuple r (override r0)) (ex_vars e) = None) /\
+     serveR (c, hs) now r0 =
+       match xv_find (vary_tuple r (override r0)) (ex_vars e) with
+       | Some v => ((c1, hs), finishX fix_svary negotiate vary_header r (override r0) (v_resp v) ims_on true false, [])
+       | None => vary_missingX hstate compute true ims_on true fix_svary true sfilter negotiate vary_tuple vary_header c1 hs now r
+                               (override r0) true k e
+       end).
+  Proof.
+    exact (ims_rule_x hstate compute ims_on fix_ovkey fix_svary sfilter parse_ims sanitize_ok prime override negotiate
+             vary_tuple vary_header).
+  Qed.
 End C04.
+
+(** one computation per key while fresh, over whole histories: after a response was computed and stored, in every
+    history of further requests (any paths, methods, headers), waits and clears of OTHER keys the same request is
+    answered without invoking the layer below — handler log empty, handler state untouched — until the deadline [D],
+    the shortest lifetime the handler gives responses of this path.  Hypotheses on the layer below: error responses
+    (sanitize failed) are not admissible; responses for this path agree on query-matters-ness and live until [D]. *)
+Theorem computed_once_history :
+  forall (hstate : Type) (compute : hstate -> request -> option (bytes * option bytes) -> bool -> fatx * hstate * list bytes)
+         (ims_on fix_clear fix_svary : bool) (sfilter : N -> bool) (parse_ims : bytes -> option Z) (sanitize_ok : request -> bool)
+         (prime : request -> request) (override : request -> option (bytes * option bytes))
+         (negotiate : request -> fatx -> option (N * bytes)) (vary_tuple : request -> option (bytes * option bytes) -> tuple)
+         (vary_header : request -> option (bytes * option bytes) -> fatx -> list (bytes * bytes)) (clear_alias : request -> option request)
+         (r0 : request) (x : fatx) (now0 D : N),
+  (forall hs r' ov', may_store_x true sfilter (rq_method r') (fst (fst (compute hs r' ov' false))) = false) ->
+  (forall hs r' ov' ok, rq_path (lookup_req r' ov') = rq_path (lookup_req (prime r0) (override r0)) ->
+     qmx (fst (fst (compute hs r' ov' ok))) = qmx x /\
+     match lifetime_x (fst (fst (compute hs r' ov' ok))) with Some L => D <= now0 + L | None => True end) ->
+  forall c hs hs1 lg1 ops,
+  sanitize_ok r0 = true -> get_or_head (rq_method (prime r0)) = true ->
+  (ims_on = false \/ header (B "if-modified-since") (prime r0) = None) ->
+  snd (fst (xlookup (lookup_req (prime r0) (override r0)) c now0)) = None ->
+  compute hs (prime r0) (override r0) true = (x, hs1, lg1) -> may_store_x true sfilter (rq_method (prime r0)) x = true ->
+  Forall (benign fix_clear prime override clear_alias r0 x) ops ->
+  let serveR := serveX hstate compute true ims_on true true fix_svary true true sfilter parse_ims sanitize_ok prime override
+                       negotiate vary_tuple vary_header in
+  let st1 := fst (fst (serveR (c, hs) now0 r0)) in
+  let run := runX_state hstate compute true ims_on true true fix_clear fix_svary true true sfilter parse_ims sanitize_ok prime override
+                        negotiate vary_tuple vary_header clear_alias st1 now0 ops in
+  snd run <= D ->
+  snd (serveR (fst run) (snd run) r0) = [] /\ snd (fst (fst (serveR (fst run) (snd run) r0))) = snd (fst run) /\
+  rx_from_cache (snd (fst (serveR (fst run) (snd run) r0))) = true /\
+  exists v, v_tuple v = vary_tuple (prime r0) (override r0) /\
+            snd (fst (serveR (fst run) (snd run) r0)) = finishX fix_svary negotiate vary_header (prime r0) (override r0) (v_resp v) ims_on true false.
+Proof.
+  intros hstate compute ims_on fix_clear fix_svary sfilter parse_ims sanitize_ok prime override negotiate vary_tuple
+         vary_header clear_alias r0 x now0 D Herr Hsame c hs hs1 lg1 ops.
+  exact (CacheXProofs.computed_once_history hstate compute ims_on fix_clear fix_svary sfilter parse_ims sanitize_ok prime override
+           negotiate vary_tuple vary_header clear_alias r0 x now0 D Herr Hsame c hs hs1 lg1 ops).
+Qed.
+
+(** the first clause over histories, under the handler contract of C03 ([cf]: the response is a function of the request):
+    a response that is not admissible is recomputed by EVERY request (with or without If-Modified-Since) of EVERY history,
+    whatever earlier requests stored *)
+Theorem uncacheable_always_recomputed :
+  forall (hstate : Type) (compute : hstate -> request -> option (bytes * option bytes) -> bool -> fatx * hstate * list bytes)
+         (ims_on fix_clear : bool) (sfilter : N -> bool) (parse_ims : bytes -> option Z) (sanitize_ok : request -> bool)
+         (prime : request -> request) (override : request -> option (bytes * option bytes))
+         (negotiate : request -> fatx -> option (N * bytes)) (vary_tuple : request -> option (bytes * option bytes) -> tuple)
+         (vary_header : request -> option (bytes * option bytes) -> fatx -> list (bytes * bytes)) (clear_alias : request -> option request)
+         (cf : request -> option (bytes * option bytes) -> bool -> fatx),
+  (forall hs r ov ok, fst (fst (compute hs r ov ok)) = cf r ov ok) ->
+  (forall r ov r' ov', get_or_head (rq_method r) = true -> get_or_head (rq_method r') = true ->
+     vary_tuple r ov = vary_tuple r' ov' -> rq_path (lookup_req r ov) = rq_path (lookup_req r' ov') ->
+     (qmx (cf r ov true) = true -> path_query (lookup_req r ov) = path_query (lookup_req r' ov')) ->
+     cf r ov true = cf r' ov' true) ->
+  (forall r ov, f_spref (fx_fat (cf r ov false)) = SP_NONE) ->
+  forall ops hs now r0,
+  Forall (op_no_imsx ims_on prime) ops ->
+  may_store_x true sfilter (rq_method (prime r0)) (cf (prime r0) (override r0) (sanitize_ok r0)) = false ->
+  let serveC := serveX hstate compute true ims_on true true true true true sfilter parse_ims sanitize_ok prime override
+                       negotiate vary_tuple vary_header in
+  let st := runX_state hstate compute true ims_on true true fix_clear true true true sfilter parse_ims sanitize_ok prime override
+                       negotiate vary_tuple vary_header clear_alias ([], hs) now ops in
+  snd (serveC (fst st) (snd st) r0) = snd (compute (snd (fst st)) (prime r0) (override r0) (sanitize_ok r0)) /\
+  snd (fst (fst (serveC (fst st) (snd st) r0))) = snd (fst (compute (snd (fst st)) (prime r0) (override r0) (sanitize_ok r0))).
+Proof.
+  intros hstate compute ims_on fix_clear sfilter parse_ims sanitize_ok prime override negotiate vary_tuple vary_header
+         clear_alias cf Hpure contract Herr ops hs now r0 Hno Hnot.
+  exact (uncacheable_recomputed_history hstate compute ims_on fix_clear sfilter parse_ims sanitize_ok prime override negotiate
+           vary_tuple vary_header clear_alias cf Hpure contract Herr ops [] hs now r0
+           (TInv_nil vary_tuple cf) (AdmInv_nil sfilter) Hno Hnot).
+Qed.
 
 (** the date test: accepted iff not older than the entry's second (the exact-second corner spelled out) *)
 Theorem not_modified_arithmetic : forall t created,
@@ -105,21 +225,98 @@ Theorem not_modified_arithmetic : forall t created,
   (Z.of_N (created / 1000) <= t)%Z \/ (t = Z.of_N (created / 1000) - 1)%Z /\ created mod 1000 = 0.
 Proof. exact ims_fresh_spec. Qed.
 
+(** ---------------- lifetimes read from the headers ---------------- *)
 (** max-age=N gives a lifetime of N seconds *)
 Theorem lifetime_equation : forall n hs,
   n <= u32_max -> assoc (B "kvarn-cache-control") hs = None ->
   assoc (B "cache-control") hs = Some (B "max-age=" ++ dec n) ->
   forall st body sp cmp, lifetime_ms (mkFat st hs body sp cmp) = Some (n * 1000).
 Proof. exact max_age_lifetime. Qed.
+(** … also among other comma-separated directives, padded with blanks *)
+Theorem lifetime_max_age_among : forall l1 seg l2 n hs,
+  n <= u32_max ->
+  forallb (fun s => negb (mem_byte 44 s)) (l1 ++ seg :: l2) = true ->
+  forallb other_directive l1 = true -> forallb other_directive l2 = true ->
+  trim seg = B "max-age=" ++ dec n ->
+  assoc (B "kvarn-cache-control") hs = None ->
+  assoc (B "cache-control") hs = Some (join_commas (l1 ++ seg :: l2)) ->
+  to_str_ok (join_commas (l1 ++ seg :: l2)) = true ->
+  forall st body sp cmp, lifetime_ms (mkFat st hs body sp cmp) = Some (n * 1000).
+Proof. exact max_age_among_lifetime. Qed.
+(** kvarn-cache-control: N<unit> gives N·unit seconds, for every N and unit s/m/h/d with N·unit within u32 *)
+Theorem lifetime_kvarn_unit : forall n u m hs,
+  unit_seconds u = Some m -> n * m <= u32_max ->
+  assoc (B "kvarn-cache-control") hs = Some (dec n ++ [u]) ->
+  forall st body sp cmp, lifetime_ms (mkFat st hs body sp cmp) = Some (n * m * 1000).
+Proof. exact kvarn_unit_lifetime. Qed.
 
-(** non-vacuity *)
-Example c04_ex_admit : may_store true M_GET (mkFat 200 [(B "cache-control", B "max-age=1")] (B "x") SP_FULL true) = true.
+(** ---------------- the code before the repairs ---------------- *)
+(** handle_vary_missing pushed every computed variant: a variant whose handler declared NO server caching was stored
+    (and served) — false for the repaired code by [stored_variants_admitted] *)
+Theorem vary_push_admission_refuted :
+  exists k e v,
+    xc_find k (fst (fst (run_cfgx_state true w1_cx w1_ops))) = Some e /\ In v (ex_vars e) /\
+    may_store_x true (sfilter_fix (cx_sfilter w1_cx)) M_GET (v_resp v) = false.
+Proof. exact vary_push_admission_refuted_w. Qed.
+(** … and a max-age=1 variant was served 2.5 s after it was stored — false now by [never_served_past_own_lifetime] *)
+Theorem variant_lifetime_refuted :
+  exists k e c1 v L,
+    let st := run_cfgx_state true w2_cx w2_ops in
+    xlookup (w_req (B "b")) (fst (fst st)) (snd st) = ((k, Some e), c1) /\
+    xv_find [B "b"] (ex_vars e) = Some v /\ lifetime_x (v_resp v) = Some L /\ L < snd st - v_stored v.
+Proof. exact variant_lifetime_refuted_w. Qed.
+(** clear_page("/a/") left the entry of GET /a/ (stored under /a/index.html) in the cache *)
+Theorem clear_unprimed_refuted :
+  exists o1 rp, run_cfgx true w4_cx [XReq w4_r; XClearPage w4_r; XReq w4_r] = [o1; XbCleared true false; XbReply rp []] /\
+                rx_from_cache rp = true /\ rx_body rp = B "n=1".
+Proof. exact clear_unprimed_refuted_w. Qed.
+
+(** 304 was decided before the variant was looked up: a request with If-Modified-Since for a variant whose handler
+    declared no server caching was answered 304 from the page's entry, without recomputation *)
+Theorem ims_unstored_variant_refuted :
+  exists rp, nth 1 (run_cfgx true w7_cx w7_ops) XbNone = XbReply rp [] /\ rx_status rp = 304.
+Proof. exact ims_unstored_variant_refuted_w. Qed.
+
+(** ---------------- non-vacuity ---------------- *)
+Example c04_ex_admit : may_store_x true status_filter_drop M_GET
+                         (plain (mkFat 200 [(B "cache-control", B "max-age=1")] (B "x") SP_FULL true)) = true.
 Proof. vm_compute. reflexivity. Qed.
-Example c04_ex_refuse_405 : may_store true M_GET (mkFat 405 [] (B "x") SP_FULL true) = false.
+Example c04_ex_refuse_405 : may_store_x true status_filter_drop M_GET (plain (mkFat 405 [] (B "x") SP_FULL true)) = false.
+Proof. vm_compute. reflexivity. Qed.
+Example c04_ex_refuse_stream : may_store_x true status_filter_drop M_GET (mkFX (mkFat 200 [] (B "x") SP_FULL true) (Some None) 0) = false.
+Proof. vm_compute. reflexivity. Qed.
+Example c04_ex_refuse_4mib : may_store_x true status_filter_drop M_GET (mkFX (mkFat 200 [] (B "x") SP_FULL true) None 4194303) = false.
+Proof. vm_compute. reflexivity. Qed.
+Example c04_ex_admit_4mib_minus_1 : may_store_x true status_filter_drop M_GET (mkFX (mkFat 200 [] (B "x") SP_FULL true) None 4194302) = true.
 Proof. vm_compute. reflexivity. Qed.
 Example c04_ex_none : kvarn_none (mkFat 200 [(B "kvarn-cache-control", B " none ")] (B "x") SP_FULL true) = true.
 Proof. vm_compute. reflexivity. Qed.
 Example c04_ex_lifetime : lifetime_ms (mkFat 200 [(B "cache-control", B "no-store, max-age=30")] (B "x") SP_FULL true) = Some 30000.
 Proof. vm_compute. reflexivity. Qed.
 Example c04_ex_kvarn_unit : lifetime_ms (mkFat 200 [(B "kvarn-cache-control", B "2m")] (B "x") SP_FULL true) = Some 120000.
+Proof. vm_compute. reflexivity. Qed.
+Example c04_ex_among : lifetime_ms (mkFat 200 [(B "cache-control", B "public, max-age=7 ,immutable")] (B "x") SP_FULL true) = Some 7000.
+Proof. vm_compute. reflexivity. Qed.
+(** the repaired model stores the admissible variant only and expires the entry with its shortest-lived variant *)
+Example c04_ex_repaired_push :
+  bodies (run_cfgx true (mkCfgX (cx_base w1_cx) (cx_xhandlers w1_cx) 0 None true true true true true true)
+                   (w1_ops ++ [XReq (w_req (B "b")); XReq (w_req (B "a"))])) = [B "a=1"; B "b=2"; B "b=3"; B "a=1"].
+Proof. vm_compute. reflexivity. Qed.
+(** [cleared_is_miss] in the two-key state: the handler of /p answers QueryMatters when asked with a query (x-k: q) and
+    Full for the bare form; after GET /p?q=a and GET /p both keys of the page are occupied; clear_page("/p?q=a")
+    removes both, so the next GET /p?q=a is not answered from the surviving path-only entry but recomputed *)
+Definition ex_two_keys_cx : configx :=
+  mkCfgX (w_cfg false [] [])
+         [mkXH (B "/p") (B "x-k") [mkBeh (B "q") (mkH (B "/p") 2 200 (B "q=") [] SP_QUERY 0 false []) 0 0;
+                                    mkBeh [] (mkH (B "/p") 2 200 (B "form=") [] SP_FULL 0 false []) 0 0]]
+         0 None true true true true true true.
+Definition ex_rq : request := mkReq M_GET (B "/p") (Some (B "q=a")) [(B "x-k", B "q")] 1.
+Definition ex_rf : request := mkReq M_GET (B "/p") None [] 1.
+Example c04_ex_two_keys_occupied :
+  let c := fst (fst (run_cfgx_state true ex_two_keys_cx [XReq ex_rq; XReq ex_rf])) in
+  xc_find (key_pq ex_rq) c <> None /\ xc_find (key_p ex_rq) c <> None.
+Proof. vm_compute. split; discriminate. Qed.
+Example c04_ex_two_keys_cleared :
+  bodies (run_cfgx true ex_two_keys_cx [XReq ex_rq; XReq ex_rf; XReq ex_rq; XClearPage ex_rq; XReq ex_rq; XReq ex_rf]) =
+  [B "q=1"; B "form=2"; B "q=1"; []; B "q=3"; B "form=4"].
 Proof. vm_compute. reflexivity. Qed.
